@@ -100,7 +100,8 @@ class Gen3(c20.Gen):
             for x in (rec[3:] if rec[0] == "new" else rec[3:]):
                 if isinstance(x, list) and x and x[0] == "ref" and self.kinds[x[1]] not in ("lit", "class+", "class-", "token"):
                     return None
-                if isinstance(x, list) and x and x[0] in ("new", "call", "op") and x[1] not in ("OneOrMore", "Optional"):
+                if isinstance(x, list) and x and x[0] in ("new", "call", "op") and x[1] not in QUANT and \
+                        not (x[0] == "op" and x[1] == "+" and isinstance(x[2], list) and x[2][0] in ("new", "call") and x[2][1] in QUANT):
                     return None
         for i in _ref_list(rec):
             if self.names[i] & seen:
@@ -114,6 +115,8 @@ class Gen3(c20.Gen):
     def bad_name(self):
         r = self.rng
         base = r.choice(["a", "key", "g_1", "Name"])
+        if r.random() < 0.25:
+            return r.choice(["1", "7", "12", "0"])       # digits only: never a valid name
         return r.choice([base + "\n", "1" + base, base + " x", base + "-", "", base + "!", " " + base, base + "é-", "\n" + base,
                          base + "\t", "(" + base, base + ">", 5, None if False else 7.5])
 
@@ -137,6 +140,21 @@ class Gen3(c20.Gen):
                              ["new", "Conditional", self.bad_name(), a], ["new", "Backreference", str(self.bad_name()) + "-"]])
         if k < 0.35:
             return r.choice([["new", "Date", self.date_format()], ["new", "Date", ["list", self.date_format(), self.date_format()]]])
+        if k < 0.5:
+            # a quantified (not fixed-width) pattern as a lookbehind assertion: NonFixedWidthPatternException is due
+            lit = r.choice([["lit", r.choice(["a", "ab", "x"])], ["named", "AnyDigit"], ["AnyFrom", "a", "b"]])
+            n = r.choice([2, 3, 5])
+            q = r.choice([["new", "Optional", lit], ["new", "Indefinite", lit], ["new", "OneOrMore", lit], ["new", "AtLeast", lit, n],
+                          ["new", "AtMost", lit, n], ["new", "AtMost", lit, None], ["new", "AtLeastAtMost", lit, 0, n],
+                          ["new", "AtLeastAtMost", lit, 1, n], ["new", "AtLeastAtMost", lit, n, None],
+                          ["call", "at_most", lit, n], ["call", "at_least", lit, n], ["new", "Optional", lit, False],
+                          ["new", "AtMost", lit, n, False]])
+            if r.random() < 0.4:
+                q = ["op", "+", q, r.choice([["lit", "z"], ["named", "AnyLetter"]])]
+            lb = r.choice(["PrecededBy", "NotPrecededBy", "EnclosedBy", "NotEnclosedBy"])
+            meth = {"PrecededBy": "preceded_by", "NotPrecededBy": "not_preceded_by", "EnclosedBy": "enclosed_by",
+                    "NotEnclosedBy": "not_enclosed_by"}[lb]
+            return ["new", lb, a, q] if r.random() < 0.5 else ["call", meth, a, q]
         return r.choice([
             ["new", "Concat", a, bad], ["call", "concat", a, bad], ["new", "Either", bad, a], ["new", "Optional", bad],
             ["new", "Exactly", a, r.choice([-1, 1.5, True, "2", None])], ["call", "exactly", a, r.choice([-2, "1", False])],
@@ -149,7 +167,8 @@ class Gen3(c20.Gen):
             ["new", "FollowedBy", a], ["new", "NotFollowedBy", a, ""], ["new", "PrecededBy", a, bad],
             ["new", "NotPrecededBy", a, ["new", "OneOrMore", ["lit", "a"]]], ["new", "PrecededBy", a, ["new", "Optional", ["lit", "ab"]]],
             ["new", "Pregex", bad], ["new", "AnyFrom"],
-            ["new", "AnyFrom", "ab"], ["new", "AnyBetween", "b", "a"], ["new", "AnyBetween", a, "a"] if False else ["new", "AnyButFrom", bad],
+            ["new", "AnyFrom", "ab"], ["new", "AnyFrom", ""], ["new", "AnyFrom", "a", ["empty"]], ["new", "AnyBetween", "", "z"],
+            ["new", "AnyBetween", "b", "a"], ["new", "AnyBetween", a, "a"] if False else ["new", "AnyButFrom", bad],
             ["new", "MatchAtStart", bad], ["new", "Group", bad],
         ])
 
@@ -411,8 +430,11 @@ def shrink_candidates(plan):
                 q = copy.deepcopy(plan)
                 q["config"]["churn"] = n
                 yield q
+    frozen = {op["id"]: op["recipe"] for op in plan["tasks"][0] if op.get("expect")}
     for q in c20.shrink_candidates(plan):
-        yield q
+        # an expectation ("invalid in a documented way") belongs to the exact recipe: never rewrite such a recipe
+        if all(op["recipe"] == frozen[op["id"]] for op in q["tasks"][0] if op.get("expect") and op["id"] in frozen):
+            yield q
 
 
 EVIDENCE = {
